@@ -76,6 +76,17 @@ CHECKS = {
   "KMeans::predict on an arbitrary model (k <= 3, d <= 2) assigns every row the first centroid at minimal squared distance. KMeans::fit (seeding, Lloyd iterations, empty clusters) and the whole filtering pass are outside (do not finish).",
   "Trusts Kani/CBMC; BBDTree::prune and the model constructor are reached through cfg(feature=verif) hooks; agreement of the tree-accelerated assignment with exhaustive search is NOT decided, only its pruning test.",
   "DESIGN.md 6/C12"),
+ "C14": (True,
+  "PCA on a single column (n = 2, 3; 4 thorough; integer lattice, non-constant): through the real fit (centring, one-column SVD) and transform CBMC proves that the component is +-1, the transformed training data equal +-(x - mean) and have zero mean, "
+  "the transform is row-wise (transforming a stack equals stacking the transforms) and asking for more components than columns is an error. This only guards the centring / projection bookkeeping: orthonormality, decorrelation, variance ordering and optimality for p >= 2 and all of truncated SVD need a multi-column SVD/EVD, which does not finish - outside the claim.",
+  "Trusts Kani/CBMC; hypot stubbed, error constructors trapped; p = 1 only.",
+  "DESIGN.md 6/C14"),
+ "C20": (True,
+  "For the nalgebra and ndarray bindings (2x3 / 3x2, any f64 bit pattern) CBMC proves against the same logical row-major oracle as for the dense backend (C03): element/row/column access, transpose, flattening and reshape to every compatible shape - also of a TRANSPOSED operand (nalgebra quick; ndarray thorough) - slicing, take, constructors; "
+  "on the integer lattice with mixed signs: sum/min/max/norms/max_diff, means, argmax, element-wise arithmetic, approximate_eq, dot and nalgebra matmul; incompatible shapes panic for binary arithmetic and approximate_eq returns false on both bindings. Several ndarray harnesses only fit the thorough tier (40 GB). "
+  "ndarray matmul (inline assembly in matrixmultiply), the decompositions and every estimator on the foreign backends are outside.",
+  "Trusts Kani/CBMC and the translation of the ndarray / nalgebra crates themselves; agreement between backends follows from agreement of each with the common oracle; ndarray cov is unimplemented (panics) - see DESIGN section 8.",
+  "DESIGN.md 6/C20"),
  "C15": (True,
   "For every label/score vector of length <= 4 (5 thorough; AUC scores any finite f32 incl. ties, labels symbolic; regression targets on an integer or half-integer lattice) "
   "CBMC proves that the real accuracy, precision, recall, F-beta (beta in {1/2,1,2}), ROC-AUC, MSE, MAE and R^2 code returns exactly the value of the textbook definition "
